@@ -9,7 +9,7 @@ from vf.ref import coerce as C
 from vf import gqlfront
 
 META = {
-    "bounds": "schema X (vf/world.py) in 8 engine configurations (default/explicit resolvers, non-null layout, type resolvers, sequential coercion); 16 document templates, selection depth <= 4, lists of length 0..2, "
+    "bounds": "schema X (vf/world.py) in 8 engine configurations (default/explicit resolvers, non-null layout, type resolvers, sequential coercion); 17 document templates, selection depth <= 4, lists of length 0..2, "
               "<= 3 fragments; leaves: unbounded int / Optional[int] / Optional[bool] / opaque str (len <= 2)",
     "outside": "documents outside the template catalogue; list length > 2; Float leaves symbolic (C10); message wording",
     "explanation": "Oracle: vf/ref/execute.py (CollectFields/ExecuteSelectionSet/CompleteValue written from the spec text) run on the same symbolic values.",
@@ -54,6 +54,8 @@ TEMPLATES = {
     "T13": "mutation { a: set(v: 1) other b: set(v: 2) deep { leaf { n } leaves { n } } }",
     "T15": "{ nodes { owner { n } ... on A { owner { s n } } ... on B { owner { b } } } us { ... on A { owner { n } } ... on Node { owner { s } } } }",
     "T16": "{ mid { ...F } m2: mid { ...F ...G } m3: mid { ...G } } fragment F on Mid { leaf { n } } fragment G on Mid { leaf { s } n }",
+    # list items whose sub-trees have different depths (an A has a peer, a B has not): items complete at different times
+    "T17": "{ nodes { id ... on A { peer { id ... on B { flag } } n } } us { ... on A { peer { id } } ... on B { flag } } mids { leaves { n } n } }",
     "T14": "query Q($s: Boolean!) { u { ... on A { n } ... on B { flag } ... on U { __typename } } node { ... on Node { id } ... on B @skip(if: $s) { flag } } }",
 }
 ASTS = {k: gqlfront.parse(v) for k, v in TEMPLATES.items()}
@@ -71,7 +73,7 @@ warm()
 
 ROOT_KEYS = {
     "T01": "n nn", "T02": "n nn", "T03": "n mid", "T04": "n nn mid", "T05": "mids", "T06": "n mid", "T07": "n nn mid",
-    "T08": "node u nodes", "T09": "n nn", "T10": "", "T11": "us a color", "T12": "mid", "T13": "other deep", "T14": "u node", "T15": "us nodes", "T16": "mid",
+    "T08": "node u nodes", "T09": "n nn", "T10": "", "T11": "us a color", "T12": "mid", "T13": "other deep", "T14": "u node", "T15": "us nodes", "T16": "mid", "T17": "nodes us mids",
 }
 
 
@@ -190,7 +192,7 @@ for t in TEMPLATES:
     kinds = ["univ", "plain"]
     if t in ("T08", "T11", "T14"):
         kinds = ["univ", "plain", "tres", "plain_tres"]
-    if t in ("T15", "T16"):
+    if t in ("T15", "T16", "T17"):
         kinds = ["univ", "plain", "seq"]
     if t in ("T03", "T05", "T12"):
         kinds = ["univ", "plain", "univ_nn"]
@@ -238,7 +240,7 @@ QUICK = [i for i, s in enumerate(SHARDS) if (s["eng"] in ("univ",) and s["tn"] =
             symbolic=["n: Optional[int] (unbounded)", "m: int (unbounded)", "flag: Optional[bool]", "st: str (all strings)", "v: Optional[int]",
                       "s, i: bool via real variable coercion and the real @skip/@include hooks"],
             selectors=["t1,t2,t3: runtime type of node/u/nodes", "nlen: list length 0..2", "shard: template, engine kind, type-naming way, operation name"],
-            bounds="templates T01-T16 x engines {univ, plain, univ_nn, tres, plain_tres, seq, plain_seq, ov} x 3 type-naming ways",
+            bounds="templates T01-T17 x engines {univ, plain, univ_nn, tres, plain_tres, seq, plain_seq, ov} x 3 type-naming ways",
             note="real Engine.execute vs reference executor: data incl. key order, error accounting, resolver call log")
 def c01_exec(s: bool, i: bool, t1: bool, t2: bool, t3: bool, n: Optional[int], m: int, flag: Optional[bool], st: str,
              v: Optional[int], nlen: int) -> bool:
@@ -249,7 +251,7 @@ def c01_exec(s: bool, i: bool, t1: bool, t2: bool, t3: bool, n: Optional[int], m
     kind = sh["eng"]; tmpl = sh["tmpl"]; tn = sh["tn"]
     P = LazyP({"n": n, "m": m, "flag": flag, "st": st, "v": v, "nlen": nlen, "t1": t1, "t2": t2, "t3": t3, "which": 0}, sh)
     tres = kind in ("tres", "plain_tres")
-    data = mkdata(P, tn, tres, ROOT_KEYS[tmpl], mixed=(tmpl == "T15"))
+    data = mkdata(P, tn, tres, ROOT_KEYS[tmpl], mixed=(tmpl in ("T15", "T17")))
     s = sh.get("s", s); i = sh.get("i", i)
     variables = {"s": s, "i": i, "v": v, "w": n}
     if tmpl == "T10" and n is None:
